@@ -1,7 +1,7 @@
 // C15: one small translation unit built with -fsanitize=undefined -fno-sanitize-recover=all in EVERY tier: iterator `operator+=` on
 // boundary diffs (fix e44962b: the index sum must not be formed in a signed type) for Array (external / internal capacity),
 // SegmentedArray and the raw iterators of a DataSelection.  Lines: `g adv <ar|ai|sa> cnt idx diff`, `g rawadv cnt idx diff`,
-// `g rawarrow cnt idx`; output as harness3.cpp (A=<new index> | A | R | CRASH..).  Each case runs in a forked child.
+// `g rawarrow cnt idx`, `g mhadv cnt idx diff`, `g mharrow cnt idx` (DataRawMultiHashIterator of FindByMultiHash bounds); output as harness3.cpp (A=<new index> | A | R | CRASH..).  Each case runs in a forked child.
 #include "private_access.h"
 #include <unistd.h>
 #include <sys/wait.h>
@@ -42,6 +42,21 @@ static std::string dispatch(const std::string& line)
 		return k == "ar" ? adv<AR>(c, i, d) : k == "ai" ? adv<ARI>(c, i, d) : adv<SA>(c, i, d);
 	}
 	long long c = 0, i = 0, d = 0; is >> c >> i >> d;
+	if (what == "mhadv" || what == "mharrow")
+	{
+		// FindByMultiHash bounds of c rows (DataRawMultiHashIterator under DataRowIterator); the model takes mRaw0 / mRawBegin != null
+		// from c (c > 0 / c > 1): checked here against the real fields
+		DT t(DCL({ valCol })); auto mhi = t.AddMultiHashIndex(valCol);
+		for (long long j = 0; j < c; ++j) t.AddRow(valCol = 5);
+		auto hb = t.FindByMultiHash(mhi, valCol == 5);
+		if ((long long)hb.GetCount() != c) return "?count";
+		auto it = hb.GetBegin();
+		if ((it.mRawIterator.mRaw0 != nullptr) != (c > 0) || (it.mRawIterator.mRawBegin != nullptr) != (c > 1) || (long long)it.mRawIterator.mRawCount != c) return "?rawbegin";
+		if (i != 0) it += ptrdiff_t(i);
+		if (what == "mhadv") { std::string r = attempt([&] { it += ptrdiff_t(d); });
+			return r == "A" ? "A=" + std::to_string((long long)(it - hb.GetBegin())) : r; }
+		return attempt([&] { volatile int x = (*it)[valCol]; (void)x; });
+	}
 	DT t(DCL({ valCol })); for (long long j = 0; j < c; ++j) t.AddRow(valCol = int(j));
 	auto sel = t.Select();
 	auto raws = sel.GetBegin();             // DataRowIterator over DataRawIterator
